@@ -8,7 +8,7 @@ use crate::wl::{self as gen_, asm};
 use crate::rng::{mix, tag, Rng};
 
 /// (family, weight, sections it uses with the main one first)
-pub const FAMILIES: &[(&str, u64)] = &[("aranges", 10), ("addr", 6), ("str", 4), ("pub", 6), ("line", 24), ("macros", 6), ("lists", 20)];
+pub const FAMILIES: &[(&str, u64)] = &[("aranges", 10), ("addr", 6), ("str", 4), ("pub", 6), ("line", 24), ("macros", 6), ("lists", 20), ("info", 40)];
 
 pub fn families_for(prop: &str) -> Vec<(&'static str, u64)> {
     match prop {
@@ -25,6 +25,7 @@ pub fn main_section(family: &str) -> &'static str {
         "line" => "debug_line",
         "macros" => "debug_macinfo",
         "lists" => "debug_rnglists",
+        "info" => "debug_info",
         _ => "",
     }
 }
@@ -262,6 +263,73 @@ fn gen_family(rng: &mut Rng, c: &mut Case, fam: &str, be: bool) {
             c.put("debug_loc", l);
             c.put("debug_loclists", ll);
             c.put("debug_addr", ad);
+        }
+        "info" => {
+            let asz = c.knob("addr_size", 8) as u8;
+            c.set("cache", rng.below(3) as i64);
+            c.set("dwo", rng.chance(1, 5) as i64);
+            let mode = rng.below(10);
+            let mut secs: std::collections::BTreeMap<String, Vec<u8>> = Default::default();
+            if mode < 4 {
+                if let Some(m) = crate::wl::writer::dwarf_sections(rng, be, asz) {
+                    secs = m;
+                    note.push_str("writer");
+                }
+            } else if mode == 4 && !be {
+                note.push_str("fixture");
+                // one or two small units of the fixture with the tables they reference
+                let fx = gen_::fixture("debug_info");
+                let b = gen_::record_bounds(fx, "debug_info");
+                let mut tries = 0;
+                let mut i = rng.usize(b.len());
+                while b[i].1 - b[i].0 > 6000 && tries < 8 {
+                    i = rng.usize(b.len());
+                    tries += 1;
+                }
+                let (st, en) = b[i];
+                secs.insert("debug_info".into(), fx[st..en.min(st + 12000)].to_vec());
+                secs.insert("debug_abbrev".into(), gen_::fixture("debug_abbrev").to_vec());
+                let s = gen_::fixture("debug_str");
+                secs.insert("debug_str".into(), s[..4096].to_vec());
+                secs.insert("debug_line".into(), gen_::fixture_slice(rng, "debug_line", 1, 4000));
+                secs.insert("debug_ranges".into(), gen_::fixture("debug_ranges")[..2048].to_vec());
+                secs.insert("debug_loc".into(), gen_::fixture("debug_loc")[..2048].to_vec());
+            }
+            if secs.is_empty() {
+                note.push_str("asm");
+                let (ab, info, types) = asm::info(rng, be, asz);
+                secs.insert("debug_abbrev".into(), ab);
+                secs.insert("debug_info".into(), info);
+                secs.insert("debug_types".into(), types);
+                let (s, o) = asm::strs(rng, be);
+                secs.insert("debug_str".into(), s.clone());
+                secs.insert("debug_line_str".into(), s);
+                secs.insert("debug_str_offsets".into(), o);
+                secs.insert("debug_addr".into(), asm::addr(rng, be));
+                let d64l = rng.chance(1, 4);
+                let (r, rl, l, ll, _) = asm::lists(rng, be, asz, d64l, 5);
+                secs.insert("debug_ranges".into(), r);
+                secs.insert("debug_rnglists".into(), rl);
+                secs.insert("debug_loc".into(), l);
+                secs.insert("debug_loclists".into(), ll);
+                secs.insert("debug_line".into(), asm::line_program(rng, be, asz));
+                secs.insert("debug_macinfo".into(), asm::macros(rng, be, false));
+                secs.insert("debug_macro".into(), asm::macros(rng, be, true));
+                if rng.chance(1, 6) {
+                    c.set("sup", 1);
+                    let (s2, _) = asm::strs(rng, be);
+                    secs.insert("sup_debug_str".into(), s2);
+                }
+            }
+            // corruption: mostly the DIE stream / abbreviations
+            let target = *rng.pick(&["debug_info", "debug_info", "debug_info", "debug_abbrev", "debug_abbrev", "debug_str", "debug_line", "debug_ranges", "debug_loc", "debug_rnglists", "debug_loclists", "debug_str_offsets", "debug_addr"]);
+            if let Some(v) = secs.get_mut(target) {
+                let other = gen_::fixture("debug_info");
+                gen_::corrupt_some(rng, v, &other[..256], &mut note);
+            }
+            for (k, v) in secs {
+                c.put(&k, v);
+            }
         }
         _ => panic!("gen_family: {}", fam),
     }
